@@ -5,6 +5,7 @@ package main
 import (
 	"encoding/json"
 	"fmt"
+	"sort"
 	"strconv"
 	"strings"
 	"testing"
@@ -115,6 +116,12 @@ func genLifetimePlan(seed uint64, tier string) *Plan {
 				probes[b], probes[b-1] = probes[b-1], probes[b]
 			}
 		}
+		if g.chance(25) {
+			// the call is modified mid-way: a re-INVITE, accepted or refused - refused, the call goes on as it was;
+			// either way the answer carries the dialog and establishes the pin anew
+			p.Ops = append(p.Ops, Op{Kind: "reinvite", ID: id + ".ri", S: map[string]string{"dialog": id}, I: map[string]int{"status": g.pick2(200, 488, 491, 603, 302), "expires": g.pick2(-1, -1, 0, 2*timeout)}})
+			p.Ops = append(p.Ops, Op{Kind: "probe-now", ID: id + ".pr", S: map[string]string{"dialog": id}})
+		}
 		if g.chance(40) {
 			// terminate, then probe again
 			top := Op{Kind: "terminate", ID: id + ".bye", S: map[string]string{"dialog": id, "how": g.pick("BYE", "BYE", "NOTIFY-terminated", "NOTIFY-active", "NOTIFY-terminated-reason")}, I: map[string]int{"status": g.pick2(200, 200, 481, 500, 603)}}
@@ -124,6 +131,26 @@ func genLifetimePlan(seed uint64, tier string) *Plan {
 		if g.chance(50) {
 			p.Ops = append(p.Ops, Op{Kind: "traffic", ID: fmt.Sprintf("t%s-%d", g.tag, i), I: map[string]int{"n": 1 + g.intn(5)}})
 		}
+	}
+	if g.chance(35) {
+		// calls whose pins have run out are taken up again (re-INVITE) at the very instant other calls are established:
+		// the new pins are made while a purge of the old ones is due
+		aimed := g.chance(70)
+		if aimed {
+			// aimed at the purge instant: a call set up after a quiet period (its INVITE triggers a purge, so the next
+			// one falls due exactly one dialog timeout later) is taken up again at that very instant
+			p.Variant = "repin"
+			p.Ops = append(p.Ops, Op{Kind: "quiet-until-purge-due", ID: "quiet"})
+			dop := genDialogOp(g, &p.Cfg, nd+1, "invite")
+			dop.Sub = nil
+			dop.ID = fmt.Sprintf("d%s-race", g.tag)
+			dop.Kind = "pin"
+			dop.I["expires"] = g.pick2(-1, -1, 0)
+			dop.I["reqExpires"] = -1
+			dop.I["prov"] = 0
+			p.Ops = append(p.Ops, dop)
+		}
+		p.Ops = append(p.Ops, Op{Kind: "repin-burst", ID: fmt.Sprintf("rb%s", g.tag), I: map[string]int{"fresh": g.rng(1, 4), "expires": g.pick2(-1, -1, 0, 3*timeout), "slowUs": g.pick2(350, 350, 301, 1000, 300)}})
 	}
 	return p
 }
@@ -173,7 +200,7 @@ type pinModel struct {
 func execLifetime(t *testing.T, p *Plan) *Result {
 	r := &Result{}
 	timeout := time.Duration(p.Cfg.Knobs["timeout"]) * time.Second
-	purge := p.Variant == "purge"
+	purge := p.Variant == "purge" || p.Variant == "repin"
 	var keep []*Proxy
 	body := func(w *World) {
 		d := newDlgWorld(w, p)
@@ -194,9 +221,13 @@ func execLifetime(t *testing.T, p *Plan) *Result {
 		// backends answer: INVITE with the scripted Expires, everything else with 200 / scripted status
 		respExpires := map[string]int{}
 		respStatus := map[string]int{}
+		respDelayUs := map[string]int{}
 		ringing := map[string]int{}
 		d.respScript = func(party string, m *sipwire.Msg, id string) []respPlan {
 			rp := respPlan{delay: 300 * time.Microsecond, status: 200, expires: -1}
+			if us, ok := respDelayUs[id]; ok {
+				rp.delay = time.Duration(us) * time.Microsecond
+			}
 			var out []respPlan
 			if e, ok := respExpires[id]; ok {
 				rp.expires = e
@@ -339,6 +370,40 @@ func execLifetime(t *testing.T, p *Plan) *Result {
 				arrive := w.K.Elapsed() + 200*time.Microsecond
 				at, total := probe(pm, op.ID, arrive)
 				judgeProbe(pm, op.ID, arrive, at, total)
+			case "reinvite":
+				pm := pins[op.S["dialog"]]
+				if pm == nil || pm.terminated || pm.dontcare {
+					continue
+				}
+				di := idsOf(pm.op)
+				di.toTag = "tt" + strings.ReplaceAll(pm.op.ID+".inv", ".", "")
+				respExpires[op.ID] = op.I["expires"]
+				respStatus[op.ID] = op.I["status"]
+				d.sendRequest(di.ua, pm.op.Listen, di.request(reqOpts{method: "INVITE", cseq: 40, style: 5, srcAddr: di.ua, id: op.ID}), op.ID)
+				w.K.Settle(10 * time.Second)
+				noteTraffic()
+				bs := d.reached[op.ID]
+				if len(bs) != 1 {
+					pm.dontcare = true
+					continue
+				}
+				var t0 time.Duration = -1
+				for i := len(w.N.Events) - 1; i >= 0; i-- {
+					if ev := w.N.Events[i]; ev.Kind == "udp-arrive" && ev.A == bs[0] {
+						t0 = ev.At
+						break
+					}
+				}
+				if t0 < 0 {
+					pm.dontcare = true
+					continue
+				}
+				life := timeout
+				if e := op.I["expires"]; time.Duration(e)*time.Second > life {
+					life = time.Duration(e) * time.Second
+				}
+				pins[op.S["dialog"]] = &pinModel{backend: bs[0], t0: t0, life: life, op: pm.op}
+				w.stat(fmt.Sprintf("re-invite-answered-%dxx", op.I["status"]/100))
 			case "terminate":
 				pm := pins[op.S["dialog"]]
 				if pm == nil || w.K.Elapsed() >= pm.t0+pm.life {
@@ -403,6 +468,111 @@ func execLifetime(t *testing.T, p *Plan) *Result {
 					noteTraffic() // only traffic the proxy actually dispatched keeps its tables moving
 				} else {
 					w.stat("skipped:traffic-not-dispatched")
+				}
+			case "quiet-until-purge-due":
+				if len(keep) > 0 {
+					if dd := keep[0].dialogBasedBackends.nextCleanTime.Sub(w.K.Now()); dd > -time.Hour && dd < 24*time.Hour {
+						if dd+time.Second > 0 {
+							w.K.Advance(dd + time.Second)
+						}
+					}
+				}
+			case "repin-burst":
+				// pins that have run out (or will within a day), not terminated
+				var olds []*pinModel
+				var ids []string
+				for id := range pins {
+					ids = append(ids, id)
+				}
+				sort.Strings(ids)
+				latest := w.K.Elapsed()
+				for _, id := range ids {
+					pm := pins[id]
+					if pm.terminated || pm.dontcare || pm.life > 24*time.Hour {
+						continue
+					}
+					olds = append(olds, pm)
+					if e := pm.t0 + pm.life; e > latest {
+						latest = e
+					}
+				}
+				if len(olds) == 0 {
+					continue
+				}
+				if wait := latest + time.Second - w.K.Elapsed(); wait > 0 && len(keep) == 0 {
+					w.K.Advance(wait)
+				}
+				// one instant: a re-INVITE for every old call and some new calls
+				delay := 500 * time.Microsecond
+				if len(keep) > 0 {
+					// aimed (in-package view of the table's next purge instant, used to time the workload only): the
+					// requests reach the proxy at the very instant the purge falls due (not yet due: strictly later
+					// counts), their answers a little later, all at one instant: the first answer triggers the purge,
+					// the others re-establish pins that ran out in between
+					dd := keep[0].dialogBasedBackends.nextCleanTime.Sub(w.K.Now())
+					if dd > 50*time.Microsecond && dd < 24*time.Hour {
+						delay = dd
+						w.stat("probe:burst-aimed-at-the-purge-instant")
+					}
+				}
+				type rp struct {
+					pm  *pinModel
+					rid string
+				}
+				var reps []rp
+				for k, pm := range olds {
+					di := idsOf(pm.op)
+					di.toTag = "tt" + strings.ReplaceAll(pm.op.ID+".inv", ".", "")
+					rid := fmt.Sprintf("%s.re%d", op.ID, k)
+					respExpires[rid] = op.I["expires"]
+					if op.I["slowUs"] > 0 {
+						respDelayUs[rid] = op.I["slowUs"]
+					}
+					data := di.request(reqOpts{method: "INVITE", cseq: 50, style: k, srcAddr: di.ua, id: rid})
+					d.uaSocket(di.ua).SendExact(d.listenerAddr(pm.op.Listen), data, delay)
+					reps = append(reps, rp{pm, rid})
+				}
+				for k := 0; k < op.I["fresh"]; k++ {
+					fid := fmt.Sprintf("%s.new%d", op.ID, k)
+					respExpires[fid] = -1
+					if op.I["slowUs"] > 0 {
+						respDelayUs[fid] = op.I["slowUs"]
+					}
+					di := dlgIDs{callID: "fresh-" + fid, fromURI: "sip:n@caller.test", toURI: "sip:svc@svc.example.com", fromTag: "nf" + strings.ReplaceAll(fid, ".", ""), ruri: idsOf(olds[0].op).ruri, ua: "10.1.0.9:5060"}
+					data := di.request(reqOpts{method: "INVITE", cseq: 1, style: k, noToTag: true, srcAddr: di.ua, id: fid})
+					d.uaSocket(di.ua).SendExact(d.listenerAddr(0), data, delay)
+				}
+				w.K.Settle(delay + 10*time.Second)
+				noteTraffic()
+				w.stat("probe:re-established-while-a-purge-is-due")
+				for k, r := range reps {
+					bs := d.reached[r.rid]
+					if len(bs) != 1 {
+						w.stat("skipped:re-invite-not-dispatched-once")
+						continue
+					}
+					// the re-INVITE kept the dialog's tags: its answer carries them too, so the toTag stays
+					var t0 time.Duration = -1
+					for i := len(w.N.Events) - 1; i >= 0; i-- {
+						ev := w.N.Events[i]
+						if ev.Kind == "udp-arrive" && ev.A == bs[0] {
+							t0 = ev.At
+							break
+						}
+					}
+					if t0 < 0 {
+						continue
+					}
+					life := timeout
+					if e := op.I["expires"]; time.Duration(e)*time.Second > life {
+						life = time.Duration(e) * time.Second
+					}
+					npm := &pinModel{backend: bs[0], t0: t0, life: life, op: r.pm.op}
+					pins[r.pm.op.ID] = npm
+					arrive := w.K.Elapsed() + 200*time.Microsecond
+					pid := fmt.Sprintf("%s.rp%d", op.ID, k)
+					at, total := probe(npm, pid, arrive)
+					judgeProbe(npm, pid, arrive, at, total)
 				}
 			case "advance":
 				w.K.Advance(time.Duration(op.Dur))
